@@ -59,5 +59,9 @@ package antispoof
 //@ func (m *Manager) AddBindingV6
 //@   ghost bpfPuts mathint = 0
 //@   ghost bpfDeletes mathint = 0
+// read-modify-write of the kernel entry: the IPv4 half (written by AddBinding in the byte order the
+// kernel compares) is the one read back from the map, not rebuilt from other state
+//@   ghost bpfLookups mathint = 0
+//@   ensures err == nil && old(m.bindings) != nil ==> bpfLookups == 1
 //@   ensures err == nil && old(m.bindings) != nil ==> bpfPuts == 1 && bpfDeletes == 0
 //@   ensures err == nil && len(ipv6) == 16 ==> existing.IPv6Valid == 1 && existing.Mode == old(m.mode)
